@@ -59,6 +59,9 @@ type Answer struct {
 	// AbortAfter >= 0: close the connection after that many body bytes (origin transfer fails part-way)
 	AbortAfter int
 	Delay      time.Duration
+	// PieceDelay > 0: the body is sent in Pieces pieces (default 10) with that pause after each (a slow origin)
+	Pieces     int
+	PieceDelay time.Duration
 }
 
 func NewAnswer(status int, body []byte, lines ...string) Answer {
@@ -187,6 +190,32 @@ func writeAnswer(w io.Writer, a Answer, head bool) (closeAfter bool) {
 	if a.AbortAfter >= 0 && a.AbortAfter < len(body) {
 		body = body[:a.AbortAfter]
 		closeAfter = true
+	}
+	if a.PieceDelay > 0 {
+		k := a.Pieces
+		if k <= 0 {
+			k = 10
+		}
+		sz := (len(body) + k - 1) / k
+		for len(body) > 0 {
+			n := sz
+			if n > len(body) {
+				n = len(body)
+			}
+			if a.Chunked {
+				fmt.Fprintf(w, "%x\r\n", n)
+				w.Write(body[:n])
+				io.WriteString(w, "\r\n")
+			} else {
+				w.Write(body[:n])
+			}
+			body = body[n:]
+			time.Sleep(a.PieceDelay)
+		}
+		if a.Chunked {
+			io.WriteString(w, "0\r\n\r\n")
+		}
+		return closeAfter
 	}
 	if a.Chunked {
 		for len(body) > 0 {
